@@ -65,4 +65,57 @@ def Op.targets : Op → List Bytes
   | .modify _ n _ _ => [normalizeName n]
   | .delete n _ => [normalizeName n]
 
+/-! ### collision freedom of the hash on the names actually involved
+
+SHA-256 is not injective (finite codomain), so no theorem may assume `Function.Injective cfg.H`.
+What the proofs need is that the hash separates the finitely many key pre-images that occur: those
+of the names stored in the state and of the names the messages mention. -/
+
+/-- the key pre-images of a list of names (names without a key contribute nothing) -/
+def preimagesOf (names : List Bytes) : List Bytes :=
+  names.filterMap fun n => match preimage n with | .ok p => some p | .error _ => none
+
+/-- `H` is injective on the byte strings of the list (`Set.InjOn H {p | p ∈ ps}`) -/
+def InjOnList {κ : Type} (H : Bytes → κ) (ps : List Bytes) : Prop :=
+  ∀ p ∈ ps, ∀ q ∈ ps, H p = H q → p = q
+
+instance {κ : Type} [DecidableEq κ] (H : Bytes → κ) (ps : List Bytes) : Decidable (InjOnList H ps) := by
+  unfold InjOnList; infer_instance
+
+/-- the hash of the configuration has no collision among the key pre-images of `names` -/
+def NoHashCollision {κ : Type} (cfg : Cfg κ) (names : List Bytes) : Prop :=
+  InjOnList cfg.H (preimagesOf names)
+
+instance {κ : Type} [DecidableEq κ] (cfg : Cfg κ) (names : List Bytes) :
+    Decidable (NoHashCollision cfg names) := by
+  unfold NoHashCollision; infer_instance
+
+/-- the names of the stored records -/
+def storedNames {κ : Type} (st : State κ) : List Bytes := (allRecords st).map (·.name)
+
+/-- the names `Keeper.CreateRootName` builds while it walks the segments (last segment first):
+`segs` are the segments still to visit, `n` the name built so far — AS WRITTEN (not normalized);
+these are the names it looks up. -/
+def rootPath : List Bytes → Bytes → List Bytes
+  | [], _ => []
+  | seg :: rest, n => trimRightDots (seg ++ dot :: n) :: rootPath rest (trimRightDots (seg ++ dot :: n))
+
+/-- the names a message looks up in the store, as written in the message -/
+def Op.lookups : Op → List Bytes
+  | .root _ n _ _ => n :: rootPath (splitDot n).reverse []
+  | .bind pn _ _ _ _ => [pn]
+  | .modify _ n _ _ => [n]
+  | .delete _ _ => []
+
+/-- every name a message can touch or look up: as written, and normalized -/
+def Op.names (op : Op) : List Bytes := op.lookups ++ op.lookups.map normalizeName ++ op.targets
+
+/-- `Keeper.ExportGenesis` (genesis.go:24): every record of the store becomes a binding. -/
+def exportGenesis {κ : Type} (st : State κ) : List Record := allRecords st
+
+/-- two states hold the same key-value pairs in both halves of the store (the order of the
+association lists is a representation detail: the real store iterates in key order) -/
+def StateEq {κ : Type} [DecidableEq κ] (s t : State κ) : Prop :=
+  (∀ k, KV.get s.recs k = KV.get t.recs k) ∧ (∀ ak, KV.get s.idx ak = KV.get t.idx ak)
+
 end PvModel.Name
